@@ -405,8 +405,10 @@ class Report:
         ev = dict(property_id=self.prop, tier=self.tier, seed=self.seed, level=self.level,
                   coverage=cov, assumptions=self.assumptions, wall_s=round(time.time() - self.t0, 2),
                   violations=len(seen) + (1 if (tie_broken and not self.violations) else 0))
-        os.makedirs(os.path.join(ROOT, "evidence"), exist_ok=True)
-        with open(os.path.join(ROOT, "evidence", self.prop + ".json"), "w") as f:
+        # evidence/ describes /repo itself; a run against a scratch tree (VERIF_REPO) writes beside its build
+        evdir = os.path.join(ROOT, "evidence") if os.path.realpath(REPO) == "/repo" else os.path.join(ROOT, ".build", "evidence-scratch")
+        os.makedirs(evdir, exist_ok=True)
+        with open(os.path.join(evdir, self.prop + ".json"), "w") as f:
             json.dump(ev, f, indent=1, default=str)
         for ln in lines:
             print(ln)
